@@ -209,6 +209,7 @@ Proof.
   assert (Hw : white_space ((c :: name) ++ rest) = CNone).
   { unfold white_space. cbn [app span]. rewrite (alpha_not_space c Hc). reflexivity. }
   rewrite Hw.
+  change (Z.min 0 1) with 0%Z.
   rewrite (lit_name3 (c :: name) rest prev Hn Hs). cbn [length]. reflexivity.
 Qed.
 
@@ -229,7 +230,7 @@ Proof.
   assert (Hw : white_space (c :: rest) = CNone) by (destruct Hc as [-> | [-> | ->]]; reflexivity).
   rewrite Hw.
   assert (Hl : lit None 0 0 0 prev false (c :: rest) = ([], 0, 0%Z)) by (destruct Hc as [-> | [-> | ->]]; reflexivity).
-  rewrite Hl. destruct Hc as [-> | [-> | ->]]; reflexivity.
+  change (Z.min 0 1) with 0%Z. rewrite Hl. destruct Hc as [-> | [-> | ->]]; reflexivity.
 Qed.
 
 Lemma span_number_app3 ds rest :
